@@ -335,6 +335,8 @@ theorem Sound.get {cfg : Cfg} {s : St} (h : Sound P s) {k : Nat} {r : Read} (hg 
           · cases hg
           · rename_i he
             simp only [Option.some.injEq] at hg; subst hg
-            exact ⟨hm, fun h' => absurd h' he⟩
+            refine ⟨hm, fun h' => ?_⟩
+            -- a decryption failure yields no record in the current source (regenerated flag)
+            exact absurd (by simp [h', show Gen.Store.decryptFailureSkips = true from rfl]) he
 
 end SafeNet.Store
